@@ -20,8 +20,7 @@ theorem supported_spec (q : MetricQuery) (h : supported q = true) :
     | none => trivial
     | some a =>
       rw [ha] at h2
-      simp only [Bool.and_eq_true, bne_iff_ne, ne_eq] at h2
-      exact ⟨h2.1.1, h2.1.2, h2.2⟩
+      exact h2
 
 /-- what the shortcut relies on: no negative timestamp, and the line filters it does not plan pass every stored line -/
 def ShortcutOk (o : Oracles) (d : LokiDb) (q : MetricQuery) : Prop :=
@@ -133,12 +132,12 @@ theorem regroupPt_groupedKL (o : Oracles) (c : Ctx) (d : LokiDb) (q : LogQuery) 
   | map m => exact Or.inl ⟨m, rfl, rfl⟩
   | _ => exact Or.inr ⟨rfl, rfl⟩
 
-theorem aggCore_kl (fn : AggFn) (pts : List Pt) : ∀ p ∈ aggCore fn pts, ∃ x ∈ pts, p.key = x.key ∧ p.labels = x.labels := by
+theorem aggCore_kl (fn : AggFn) (pts : List Pt) : ∀ p ∈ aggCore o fn pts, ∃ x ∈ pts, p.key = x.key ∧ p.labels = x.labels := by
   intro p hp
   unfold aggCore at hp
   obtain ⟨g, hg, hgp⟩ := List.mem_filterMap.mp hp
   obtain ⟨⟨a, rest, hgr, hk⟩, hall⟩ := groupsBy_head _ pts g hg
-  cases hv : aggVal fn (g.2.map (·.value)) with
+  cases hv : aggVal o fn (g.2.map (·.value)) with
   | none => rw [hv] at hgp; cases hgp
   | some v =>
     rw [hv] at hgp
